@@ -39,6 +39,8 @@ THEOREMS = [
     'Nb.C18.label_xml_roundtrip',
     'Nb.C18.label_colour_xml',
     'Nb.C18.parcels_mapping_roundtrip',
+    'Nb.C18.dispatch_roundtrip',
+    'Nb.C18.parcels_add_ok_iff',
 ]
 ASSUMPTIONS = [
     'hand-written Lean model of nibabel/cifti2/cifti2_axes.py (Model/C18.lean): SeriesAxis slicing/int '
@@ -62,6 +64,54 @@ RULE = ('streams: series (int start/step/size/unit x int|slice|index-array|mask 
         'to_mapping+from_index_mapping; xml and file round trips of 1-3 axis tuples (oracle only). '
         'A case is non-trivial unless it is a full slice; distinct by (axis description, operation).')
 
+def regen():
+    """Generated/C18.lean from the CURRENT cifti2_axes.py (AST): the IndicesMapToDataType string each axis class
+    writes in `to_mapping`, the `return_type` dispatch dict of `from_index_mapping`, the series exponent written by
+    `SeriesAxis.to_mapping`.  Props/C18 proves `dispatch_roundtrip` and `series_mapping_roundtrip` over them."""
+    import ast
+    import os
+    import common
+    src = open(os.path.join(common.REPO, 'nibabel', 'cifti2', 'cifti2_axes.py')).read()
+    tree = ast.parse(src)
+    kinds = {'ScalarAxis': 'scalar', 'LabelAxis': 'label', 'SeriesAxis': 'series', 'BrainModelAxis': 'brainModel',
+             'ParcelsAxis': 'parcels'}
+    to_type, ret, exponent = {}, [], None
+    for node in tree.body:
+        if isinstance(node, ast.FunctionDef) and node.name == 'from_index_mapping':
+            for sub in ast.walk(node):
+                if isinstance(sub, ast.Dict) and sub.keys and all(isinstance(k_, ast.Constant) for k_ in sub.keys):
+                    ret = [(k_.value, v.id) for k_, v in zip(sub.keys, sub.values)]
+        if isinstance(node, ast.ClassDef) and node.name in kinds:
+            for fn in node.body:
+                if isinstance(fn, ast.FunctionDef) and fn.name == 'to_mapping':
+                    for sub in ast.walk(fn):
+                        if isinstance(sub, ast.Call) and getattr(sub.func, 'attr', '') == 'Cifti2MatrixIndicesMap' \
+                                and node.name not in to_type:
+                            to_type[node.name] = sub.args[1].value
+                        if node.name == 'SeriesAxis' and isinstance(sub, ast.Assign) and \
+                                getattr(sub.targets[0], 'attr', '') == 'series_exponent':
+                            exponent = ast.literal_eval(sub.value)
+    if set(to_type) != set(kinds) or not ret or not isinstance(exponent, int) or exponent < 0:
+        raise RuntimeError('C18 regen: cannot read to_mapping / from_index_mapping constants from cifti2_axes.py: '
+                           '%r %r %r' % (to_type, ret, exponent))
+    lines = ['/-! GENERATED by harness/props/c18.py regen() from the working tree of nibabel',
+             '    (nibabel/cifti2/cifti2_axes.py). Do not edit: rewritten on every run of `./check C18`. Core Lean only. -/',
+             'namespace Nb.Gen.C18', '',
+             'inductive Kind', '  | scalar | label | series | brainModel | parcels', '  deriving DecidableEq, Repr', '',
+             '/-- the IndicesMapToDataType each axis class writes in its `to_mapping` -/',
+             'def toMappingType : Kind → String']
+    for cls, k_ in kinds.items():
+        lines.append('  | .%s => "%s"' % (k_, to_type[cls]))
+    lines += ['', '/-- the `return_type` dict of `from_index_mapping` (cifti2_axes.py) -/',
+              'def returnType : List (String × Kind) :=',
+              '  [' + ', '.join('("%s", .%s)' % (t, kinds[c]) for t, c in ret if c in kinds) + ']', '',
+              '/-- `mim.series_exponent = …` in `SeriesAxis.to_mapping` -/',
+              'def seriesExponent : Nat := %d' % exponent, '', 'end Nb.Gen.C18', '']
+    path = os.path.join(common.LEAN, 'NibabelModel', 'Generated', 'C18.lean')
+    common.write_if_changed(path, '\n'.join(lines))
+    return ['Generated.C18.toMappingType', 'Generated.C18.returnType', 'Generated.C18.seriesExponent']
+
+
 PENDING_FINDINGS = [
     {'property': 'C18', 'signature': 'bm:empty-selection', 'status': 'open',
      'what': 'BrainModelAxis cannot describe an empty selection: bm[0:0] (any index selecting nothing) raises '
@@ -75,6 +125,11 @@ PENDING_FINDINGS = [
     {'property': 'C18', 'signature': 'roundtrip:name-empty', 'status': 'open',
      'what': 'an empty map name does not survive the XML round trip: ScalarAxis([""]) comes back named "None"',
      'input': {'op': 'xml', 'stream': 'xml', 'axes': [{'t': 'raw', 'd': {'kind': 'sc', 'name': [7], 'meta': [0]}}]}},
+    {'property': 'C18', 'signature': 'roundtrip:label-table-empty', 'status': 'open',
+     'what': 'a LabelAxis with an EMPTY label table cannot be read back: LabelAxis(["a"], [{}]) serialises (the empty '
+             'LabelTable element is left out) but header.get_axis raises AttributeError ("NoneType has no attribute '
+             'items") in LabelAxis.from_index_mapping; the CIFTI-2 LabelTable allows 0..N Label children',
+     'input': {'op': 'xml', 'stream': 'xml', 'axes': [{'t': 'label', 'name': [0], 'tables': [[]], 'meta': [0]}]}},
 ]
 
 # ------------------------------------------------------------------ value tables (id -> value)
@@ -1126,8 +1181,18 @@ def signature(case, what):
                 names.extend(NAME(i) for i in sp['name'])
             elif sp['t'] in ('perturb', 'hist'):
                 collect(sp['base'])
+        empty_tables = []
+
+        def tables(sp):
+            if sp['t'] == 'label':
+                empty_tables.extend(tb for tb in sp['tables'] if not tb)
+            elif sp['t'] in ('perturb', 'hist'):
+                tables(sp['base'])
         for sp in d['axes']:
             collect(sp)
+            tables(sp)
+        if 'round trip raised: ERR:AttributeError' in what and empty_tables:
+            return 'roundtrip:label-table-empty'
         if 'description changed' in what or '!= axes[i]' in what:
             if any(n == '' for n in names):
                 return 'roundtrip:name-empty'
